@@ -5,9 +5,6 @@ package ev
 
 import (
 	"bufio"
-	"runtime"
-	"runtime/debug"
-	"sync/atomic"
 	"bytes"
 	"crypto/sha1"
 	"encoding/hex"
@@ -16,10 +13,13 @@ import (
 	"os"
 	"os/exec"
 	"path/filepath"
+	"runtime"
+	"runtime/debug"
 	"sort"
 	"strconv"
 	"strings"
 	"sync"
+	"sync/atomic"
 	"time"
 )
 
@@ -90,6 +90,8 @@ type Ctx struct {
 	Shard    int
 	NShards  int
 	deadline time.Time
+	partEnd  time.Time
+	partName string
 
 	mu         sync.Mutex
 	counters   map[string]int64
@@ -169,8 +171,26 @@ func (c *Ctx) Expired() bool {
 		c.Cap("internal deadline reached")
 		return true
 	}
+	if !c.partEnd.IsZero() && time.Now().After(c.partEnd) {
+		c.Cap("share of the budget used up by part: " + c.partName)
+		return true
+	}
 	return false
 }
+
+// Part gives the part that follows at most the fraction frac of the time that is LEFT until the internal
+// deadline (a check made of several explorations must not let the first one eat the whole budget);
+// EndPart lifts the limit again.
+func (c *Ctx) Part(name string, frac float64) {
+	left := time.Until(c.deadline)
+	if left < 0 {
+		left = 0
+	}
+	c.partName = name
+	c.partEnd = time.Now().Add(time.Duration(float64(left) * frac))
+}
+
+func (c *Ctx) EndPart() { c.partEnd = time.Time{}; c.partName = "" }
 
 // Sample keeps up to a few cases per class for the evidence file.
 func (c *Ctx) Sample(class string, x any) {
